@@ -436,7 +436,7 @@ func c09Selector(c *fw.Case, doc map[string]any, force string, feats *[]string) 
 				st := mkIndex(t)
 				seg.Steps = append(seg.Steps, st)
 				rep = nil
-				if len(st.Dims) == 1 && st.Dims[0].Kind == ref.DimIndex && st.Dims[0].I < len(t) {
+				if len(st.Dims) == 1 && st.Dims[0].Kind == ref.DimIndex && st.Dims[0].I >= 0 && st.Dims[0].I < len(t) {
 					rep = t[st.Dims[0].I]
 				}
 			case objElems && (force == "key.on-array" || force == "pipe.on-array" || choice < 4):
@@ -470,7 +470,7 @@ func c09Selector(c *fw.Case, doc map[string]any, force string, feats *[]string) 
 				st := mkIndex(t)
 				seg.Steps = append(seg.Steps, st)
 				rep = nil
-				if len(st.Dims) == 1 && st.Dims[0].Kind == ref.DimIndex && st.Dims[0].I < len(t) {
+				if len(st.Dims) == 1 && st.Dims[0].Kind == ref.DimIndex && st.Dims[0].I >= 0 && st.Dims[0].I < len(t) {
 					rep = t[st.Dims[0].I]
 				} else if v, err := ref.EvalSelector(ref.Selector{Segments: []ref.Segment{{Steps: []ref.SelStep{st}}}}, any(t)); err == nil {
 					rep = v
